@@ -63,10 +63,10 @@ structure Prepared where
 
 def defaultFns : List (Str × VM.FnImpl) := Builtins.names.map (fun n => (n.toList, .builtin n))
 
-/-- `vm.New`: optimise main program and every function when the environment has OPTIMIZE -/
-def newMachine (c : Compiler.Compiled) (env : VM.Env) (fns : List (Str × VM.FnImpl)) (done : Nat → Bool) :
+/-- `vm.New`: optimise main program and every function when the environment has OPTIMIZE, which
+    `Prepare` sets (only for the duration of this call) exactly when NoOptimize was not given -/
+def newMachine (c : Compiler.Compiled) (optimize : Bool) (fns : List (Str × VM.FnImpl)) (done : Nat → Bool) :
     VM.Machine :=
-  let optimize := (env.get "OPTIMIZE".toList).isSome
   let enc (is : List Instr) : Bytes := encodeAll is
   let opt (b : Bytes) : Bytes := if optimize then Optimizer.optimize b else b
   { consts := c.consts
@@ -75,7 +75,7 @@ def newMachine (c : Compiler.Compiled) (env : VM.Env) (fns : List (Str × VM.FnI
     fns := fns
     done := done }
 
-/-- `Prepare(flags)`; returns the new environment (OPTIMIZE may have been set) -/
+/-- `Prepare(flags)`; the environment is left as it was (the OPTIMIZE signal is removed again) -/
 def prepare (script : List Char) (optimize : Bool) (env : VM.Env) (fns : List (Str × VM.FnImpl))
     (done : Nat → Bool) : Except PrepErr (Prepared × VM.Env) :=
   let toks := Lexer.lex script
@@ -84,9 +84,7 @@ def prepare (script : List Char) (optimize : Bool) (env : VM.Env) (fns : List (S
   | some ast =>
     match Compiler.compileProgram ast with
     | .error e => .error (.compile e)
-    | .ok c =>
-      let env := if optimize then env.set "OPTIMIZE".toList (.bool true) else env
-      .ok (⟨toks, ast, c, newMachine c env fns done⟩, env)
+    | .ok c => .ok (⟨toks, ast, c, newMachine c optimize fns done⟩, env)
 
 /-- steps a single `Execute` may take in the executable model -/
 def defaultFuel : Nat := 200000
